@@ -43,8 +43,9 @@ _TYPES = {"dict": "dict", "list": "list", "str": "str", "int": "int", "bytes": "
 class PathEnv:
     """Maps local expressions to request paths."""
 
-    def __init__(self, A, fn, roots):
+    def __init__(self, A, fn, roots, cls=None):
         self.A, self.fn = A, fn
+        self.cls = cls if cls is not None else fn.cls
         self.roots = dict(roots)   # local name -> path tuple
 
     def path_of(self, e, depth=0):
@@ -63,7 +64,7 @@ class PathEnv:
                 return None
             if isinstance(e.slice, ast.Constant) and isinstance(e.slice.value, str):
                 return base + (e.slice.value,)
-            ok, k = try_fold(self.A.P, e.slice, self.fn)
+            ok, k = try_fold(self.A.P, e.slice, self.fn, self.cls)
             if ok and isinstance(k, str):
                 return base + (k,)
             if isinstance(e.slice, ast.Name) and e.slice.id in self.fn.params \
@@ -73,7 +74,7 @@ class PathEnv:
         if isinstance(e, ast.Call) and isinstance(e.func, ast.Attribute) and e.func.attr == "get" \
                 and e.args:
             base = self.path_of(e.func.value, depth + 1)
-            ok, k = try_fold(self.A.P, e.args[0], self.fn)
+            ok, k = try_fold(self.A.P, e.args[0], self.fn, self.cls)
             if base is not None and ok and isinstance(k, str):
                 return base + (k,)
         return None
@@ -164,7 +165,7 @@ class AtomExtractor:
             l, r, op = f.left, f.right, f.op
             # K in X / K not in X
             if op in ("in", "not in"):
-                ok, k = try_fold(P, l, fn, fn.cls)
+                ok, k = try_fold(P, l, fn, env.cls)
                 px = env.path_of(r)
                 if ok and isinstance(k, str) and px is not None:
                     return [Atom("present" if op == "in" else "absent", px + (k,))]
@@ -173,7 +174,7 @@ class AtomExtractor:
                     return [Atom("present" if op == "in" else "absent", px + ("$" + l.id,))]
                 # param in [literals]
                 if isinstance(l, ast.Name) and l.id in fn.params:
-                    okr, vals = try_fold(P, r, fn, fn.cls)
+                    okr, vals = try_fold(P, r, fn, env.cls)
                     if okr and isinstance(vals, (list, tuple)):
                         return [Atom("param", (l.id,), (op, tuple(vals)))]
                 return None
@@ -192,7 +193,7 @@ class AtomExtractor:
             if isinstance(l, ast.Call) and call_name(l) == "len" and l.args:
                 hp = self._len_of_hex(l, env)
                 if hp is not None:
-                    okc, c = try_fold(P, r, fn, fn.cls)
+                    okc, c = try_fold(P, r, fn, env.cls)
                     if okc and isinstance(c, int):
                         if op == ">" and c == 0:
                             return [Atom("hex", hp), Atom("hexnonempty", hp)]
@@ -211,14 +212,14 @@ class AtomExtractor:
                     if q is not None and op == "!=":
                         return [Atom("lenne", p, (".".join(q),))]
                     return None
-                okc, c = try_fold(P, r, fn, fn.cls)
+                okc, c = try_fold(P, r, fn, env.cls)
                 if okc and isinstance(c, int):
                     return [Atom("len", p, (op, c))]
                 return None
             # E op const
             p = env.path_of(l)
             if p is not None:
-                okc, c = try_fold(P, r, fn, fn.cls)
+                okc, c = try_fold(P, r, fn, env.cls)
                 if okc and isinstance(c, (int, str)) and not isinstance(c, bool):
                     if op in ("==", "!="):
                         return [Atom("eq" if op == "==" else "ne", p, (c,))]
@@ -231,7 +232,7 @@ class AtomExtractor:
                 ge = c.args[0]
                 # bind generator targets to element paths
                 roots = dict(env.roots)
-                sub = PathEnv(self.A, fn, roots)
+                sub = PathEnv(self.A, fn, roots, env.cls)
                 for gen in ge.generators:
                     ip = sub.path_of(gen.iter)
                     if ip is None or not isinstance(gen.target, ast.Name) or gen.ifs:
@@ -250,7 +251,7 @@ class AtomExtractor:
             if nm == "isinstance" and f.pol:
                 return None
             # helper predicate with a summary
-            cs = [x for x in self.A.resolve_call(c, fn, fn.cls) if x.fn is not None]
+            cs = [x for x in self.A.resolve_call(c, fn, env.cls) if x.fn is not None]
             if len(cs) == 1 and cs[0].fn.cls is None:
                 callee = cs[0].fn
                 if not f.pol:
@@ -334,7 +335,7 @@ class AtomExtractor:
         if roots is None:
             ps = fn.params
             roots = {ps[1]: ()} if len(ps) > 1 else {}
-        env = PathEnv(A, fn, roots)
+        env = PathEnv(A, fn, roots, pc)
         g = A.cfg(fn, pc)
         out = []
         for r in [n for n in A.own_nodes(fn) if isinstance(n, ast.Return)]:
